@@ -446,6 +446,133 @@ pub fn check_case(c: &Case) -> CheckResult {
     Ok(rep)
 }
 
+// ---------------------------------------------------------------------------------------------
+// bulk commits: thousands of operations in one commit_operations call
+
+#[derive(Clone, Debug, PartialEq, Eq, Hash, Serialize, Deserialize)]
+pub struct BulkCase {
+    pub sqlite: bool,
+    /// number of tasks; each gets a Create and `per_task` updates (every third task becomes pending)
+    pub tasks: u16,
+    pub per_task: u8,
+    /// where the faults go, as fractions (x/65536) of the storage calls of the fault-free commit
+    pub faults: Vec<(u16, bool)>,
+}
+
+pub fn bulk_strategy() -> BoxedStrategy<BulkCase> {
+    (any::<bool>(), 260u16..900, 2u8..5, proptest::collection::vec((any::<u16>(), any::<bool>()), 2..6))
+        .prop_map(|(sqlite, tasks, per_task, faults)| BulkCase { sqlite, tasks, per_task, faults })
+        .boxed()
+}
+
+pub fn check_bulk(c: &BulkCase) -> CheckResult {
+    let mut rep = CaseReport::default();
+    let mut w = World::new(1);
+    if c.sqlite {
+        w.make_sqlite(0)?;
+        rep.class("sqlite");
+    }
+    // something committed before, so that "unchanged" is not "empty"
+    let first = taskchampion::Uuid::from_u128(0xb01c_0000);
+    let prior = vec![
+        Operation::UndoPoint,
+        Operation::Create { uuid: first },
+        Operation::Update { uuid: first, property: "status".into(), old_value: None, value: Some("pending".into()), timestamp: ts(0) },
+    ];
+    w.reps[0].commit(prior.clone()).map_err(|e| Failure::new("commit-error", format!("{e}")))?;
+    let mut ops = vec![Operation::UndoPoint];
+    for k in 0..c.tasks as u128 {
+        let uuid = taskchampion::Uuid::from_u128(0xb01c_0001 + k);
+        ops.push(Operation::Create { uuid });
+        for j in 0..c.per_task {
+            let (property, value) = if j == 0 && k % 3 == 0 {
+                ("status".to_string(), "pending".to_string())
+            } else {
+                (format!("p{j}"), format!("v{k}-{j}"))
+            };
+            ops.push(Operation::Update { uuid, property, old_value: None, value: Some(value), timestamp: ts(0) });
+        }
+    }
+    let mut model = Model::new();
+    for op in prior.iter().chain(ops.iter()) {
+        model.apply_operation(op);
+    }
+    // how many storage calls does the fault-free commit make?  (measured on a twin)
+    let calls = {
+        let mut t = World::new(1);
+        if c.sqlite {
+            t.make_sqlite(0)?;
+        }
+        t.reps[0].commit(prior.clone()).map_err(|e| Failure::new("commit-error", format!("{e}")))?;
+        t.reps[0].probe.arm(None, false);
+        t.reps[0].commit(ops.clone()).map_err(|e| Failure::new("commit-error", format!("twin: {e}")))?;
+        t.reps[0].probe.calls()
+    };
+    let before_view = api_view(&mut w.reps[0])?;
+    let before_dump = w.reps[0].dump();
+    let before_commits = w.reps[0].probe.commits();
+    for (frac, stop) in &c.faults {
+        let idx = (*frac as usize * calls) >> 16;
+        let kind = if *stop { StorageFault::Stop } else { StorageFault::Err };
+        w.reps[0].probe.arm(Some((idx, kind)), false);
+        let hung = w.reps[0].probe.hung.clone();
+        let res = crate::engine::exec::block_on_abortable(w.reps[0].replica.commit_operations(ops.clone()), &hung);
+        let fired = w.reps[0].probe.fired();
+        w.reps[0].probe.disarm();
+        crate::ensure!(fired, "harness-bug", "fault at storage call {idx} of {calls} did not fire");
+        if let Some(Ok(())) = res {
+            crate::fail!("harness-bug", "commit reported success although storage call {idx} failed");
+        }
+        rep.extra_evals += 1;
+        crate::ensure!(
+            w.reps[0].probe.commits() == before_commits,
+            "partial-commit",
+            "a commit of {} operations failed at storage call {idx} of {calls} ({kind:?}) but a transaction was committed",
+            ops.len()
+        );
+        let v = api_view(&mut w.reps[0])?;
+        crate::ensure!(
+            v.tasks == before_view.tasks && v.ws == before_view.ws && v.num_local == before_view.num_local && v.num_undo == before_view.num_undo,
+            "failed-commit-visible",
+            "a commit of {} operations failed at storage call {idx} of {calls} ({kind:?}) but the replica changed: {} tasks -> {} tasks, {} -> {} local operations",
+            ops.len(),
+            before_view.tasks.0.len(),
+            v.tasks.0.len(),
+            before_view.num_local,
+            v.num_local
+        );
+        if c.sqlite {
+            if let Some(d) = fresh_dump(&w, 0)? {
+                crate::ensure!(
+                    d.normalized() == before_dump.normalized(),
+                    "failed-commit-visible",
+                    "after a commit of {} operations that failed at storage call {idx} of {calls} a fresh SQLite handle sees different contents",
+                    ops.len()
+                );
+            }
+        }
+    }
+    w.reps[0].commit(ops.clone()).map_err(|e| Failure::new("commit-error", format!("the fault-free bulk commit failed: {e}")))?;
+    let got = w.reps[0].tasks();
+    crate::ensure!(got == model, "batch-vs-model", "after a commit of {} operations the replica holds {} tasks that differ from the reference model ({} tasks)", ops.len(), got.0.len(), model.0.len());
+    let d = w.reps[0].dump();
+    let want: Vec<Operation> = prior.iter().chain(ops.iter()).cloned().collect();
+    crate::ensure!(d.unsynced == want, "unsynced-log", "unsynchronized operations are not 'previous list ++ batch, in order': stored {} expected {}", d.unsynced.len(), want.len());
+    crate::ensure!(
+        w.reps[0].probe.commits() == before_commits + 1,
+        "partial-commit",
+        "a commit of {} operations was carried out in {} storage transactions",
+        ops.len(),
+        w.reps[0].probe.commits() - before_commits
+    );
+    let ws = w.reps[0].working_set();
+    let pending = model.0.values().filter(|p| p.get("status").map(|s| s == "pending").unwrap_or(false)).count();
+    crate::ensure!(ws.iter().flatten().count() == pending, "working-set", "{} tasks became pending in the commit, the working set lists {}", pending, ws.iter().flatten().count());
+    rep.class(if ops.len() > 2000 { "more-than-2000-operations" } else { "more-than-1000-operations" });
+    rep.nontrivial = ops.len() > 1000;
+    Ok(rep)
+}
+
 pub fn render(c: &Case) -> serde_json::Value {
     serde_json::json!({
         "storage": if c.sqlite { "sqlite" } else { "in-memory" },
@@ -475,6 +602,16 @@ pub fn run(e: &Engine) {
         render,
         check_case,
     );
+    e.set_shrink_iters(30);
+    e.campaign(
+        "bulk-commits",
+        "one commit_operations call with 780-4500 operations (260-900 new tasks, every third pending) on either storage, interrupted by an injected error or stop at 2-5 generated positions among its storage calls: nothing may be committed or visible (API view, fresh SQLite handle); then the uninterrupted commit: one storage transaction, tasks == reference model, log == previous ++ batch, working set lists the new pending tasks; non-trivial = more than 1000 operations",
+        e.tier.pick(48, 1500),
+        bulk_strategy,
+        |c| serde_json::json!({"storage": if c.sqlite { "sqlite" } else { "in-memory" }, "tasks": c.tasks, "updates_per_task": c.per_task, "faults": c.faults}),
+        check_bulk,
+    );
+    e.set_shrink_iters(4000);
     e.fuzz_corpus("c05_batch");
     e.fuzz_campaign("c05_batch", 300000);
 }
